@@ -17,3 +17,4 @@ pub mod inner { use ts_rs::TS; #[derive(TS)] pub struct Wrapper<T> { pub t: T } 
 #[derive(TS)] #[ts(concrete(T = i32))] pub struct Concrete<T> { a: T }
 #[derive(TS)] #[ts(bound = "T: TS")] pub struct ExplicitBound<T> { a: T }
 #[derive(TS)] pub struct Nested<T> { a: Vec<Option<(T, Box<T>)>> }
+pub mod shapes;
